@@ -57,7 +57,7 @@ CoreChal == {"none", "b1", "b2", "t", "bt"}
 AllFaults == {"nf", "e5", "err"}
 AllRedir == {<<"R", "https">>, <<"R", "http">>, <<"S", "https">>, <<"A", "http">>, <<"A", "https">>, <<"E", "https">>,
              <<"P", "https">>, <<"Ac", "http">>}
-CoreRedir == {<<"R", "https">>, <<"S", "https">>, <<"A", "http">>, <<"P", "https">>}
+CoreRedir == {<<"R", "https">>, <<"S", "https">>, <<"A", "http">>, <<"P", "https">>, <<"Ac", "http">>}
 AllLoc == {<<"P", "https">>, <<"A", "http">>}
 AllTok == {"tokr", "deny", "err"}
 TaRealm == {<<"Ta", "https">>}
